@@ -21,3 +21,4 @@ import BridgeVerif.Props.C17
 import BridgeVerif.Props.C18
 import BridgeVerif.Props.C19
 import BridgeVerif.Props.C20
+import BridgeVerif.Props.Source
